@@ -227,7 +227,7 @@ func seqAll(tier string, shard, nshards int, acc *ev.Acc) {
 					first := 1 // call 0 is NewDirFs's open
 					// every single failing system call
 					for i, name := range calls {
-						for _, e := range []simunix.Errno{simunix.EIO, simunix.ENOSPC} {
+						for _, e := range []simunix.Errno{simunix.EIO, simunix.ENOSPC, simunix.EINVAL, simunix.EROFS, simunix.EDQUOT, simunix.EINTR, simunix.EBADF} {
 							seqRun(c, plan{Faults: map[int]simunix.Fault{first + i: {Err: e}}, Desc: fmt.Sprintf("fault:%s#%d=%v", name, i, e)}, acc, "fault")
 							acc.Add("faults_injected", 1)
 						}
@@ -481,7 +481,7 @@ func main() {
 	acc.Counters["executions"] += acc.Counters["sequential_runs"] + acc.Counters["crash_images"]
 	os.Exit(acc.Done(ev.Finish{
 		Prop: "C13", Tier: *tier, Level: "model_checking", Start: start,
-		Rule:        fmt.Sprintf("DirFs.AtomicCreate over simunix: prior destination {absent,present} x leftover temp file {absent, empty, shorter, longer, same length} (planted at every plausible staging path) x data {0,1,3,5000 bytes} x directory; for each: visible state checked before every system call, durability of the inode checked at the instant the new content becomes visible, crash before every system call and after return x every post-crash image, every system call failing once with EIO/ENOSPC, every split of the write into <=3 short writes at boundary cuts. Concurrency: creator of d1/f + optional second creator {same name, other name, other dir} + reader (2 x Open/ReadAt/Close) on DirFs (system calls atomic) and MemFs (preemption before every statement), all schedules with <= %d preemptions", bound),
+		Rule:        fmt.Sprintf("DirFs.AtomicCreate over simunix: prior destination {absent,present} x leftover temp file {absent, empty, shorter, longer, same length} (planted at every plausible staging path) x data {0,1,3,5000 bytes} x directory; for each: visible state checked before every system call, durability of the inode checked at the instant the new content becomes visible, crash before every system call and after return x every post-crash image, every system call failing once with each of EIO, ENOSPC, EINVAL, EROFS, EDQUOT, EINTR, EBADF, every split of the write into <=3 short writes at boundary cuts. Concurrency: creator of d1/f + optional second creator {same name, other name, other dir} + reader (2 x Open/ReadAt/Close) on DirFs (system calls atomic) and MemFs (preemption before every statement), all schedules with <= %d preemptions", bound),
 		Assumptions: []string{"crash model of simunix (ordered metadata journal, fsync commits it; unsynced page writes persist in any subset)", "errno and short-write injection are simulated", "system calls are atomic steps"},
 		Extra:       mcx.Extra(acc, map[string]any{"preemption_bound": bound}),
 	}))
